@@ -68,7 +68,10 @@ pub fn install_panic_hook() {
 
 /// Runs `f` inside a counting window, catching panics.
 pub fn measure<T>(f: impl FnOnce() -> T) -> (Option<T>, Meta) {
-    let _ = take_log();
+    // objects the harness released between two calls (returned values, unused arguments): a double
+    // drop or a use of a dead object there is the map's doing (it handed out the same object twice),
+    // so it is carried into this event's ledger rather than discarded
+    let pre = take_log();
     let c0 = counts();
     let a0 = ALLOCS.load(Relaxed);
     let d0 = DEALLOCS.load(Relaxed);
@@ -80,7 +83,9 @@ pub fn measure<T>(f: impl FnOnce() -> T) -> (Option<T>, Meta) {
     let a1 = ALLOCS.load(Relaxed);
     let d1 = DEALLOCS.load(Relaxed);
     disarm();
-    let led = take_log();
+    let mut led = take_log();
+    led.double.splice(0..0, pre.double);
+    led.dead_use.splice(0..0, pre.dead_use);
     let (res, panic) = match res {
         Ok(v) => (Some(v), None),
         Err(_) => (None, Some(LAST_PANIC.with(|p| p.borrow().clone()))),
